@@ -109,6 +109,48 @@ def headers(i1: int, i2: int, i3: int, v1: str, v2: str, v3: str) -> bool:
     return True
 
 
+VALS2 = ["", "a", "\xe9", "a,b"]
+
+
+def two_requests(i1: int, i2: int, j1: int, j2: int, app_writes: bool) -> bool:
+    """
+    pre: 0 <= i1 <= 5 and 0 <= i2 <= 5 and 0 <= j1 <= 3 and 0 <= j2 <= 3
+    post: __return__
+    """
+    # two requests handled by one worker (same Config object, as in a real worker): the second environ reflects the second
+    # request only - nothing of the first request, and nothing the application stored in the first environ.
+    # CrossHair runs functools.lru_cache'd functions uncached while tracing, which would hide exactly the sharing this
+    # obligation is about: the solver picks the (small) inputs, the two requests then run with tracing off.
+    from crosshair.tracers import NoTracing
+    i1, i2, j1, j2 = pick(i1, 0, 5), pick(i2, 0, 5), pick(j1, 0, 3), pick(j2, 0, 3)
+    app_writes = bool(pick(int(app_writes), 0, 1))
+    with NoTracing():
+        return two_requests_concrete(i1, i2, VALS2[j1], VALS2[j2], app_writes)
+
+
+def two_requests_concrete(i1, i2, v1, v2, app_writes):
+    from engine.stubs import workers as WK
+    cfg = WK.make_cfg()                   # the real Config object, one per worker
+    r1 = mk_req(headers=[(NAMES[i1], v1)])
+    r1.method, r1.uri, r1.path, r1.query, r1.fragment, r1.version = "POST", "/one?q=1", "/one", "q=1", "", (1, 1)
+    e1 = env_for(r1, cfg)
+    if app_writes:
+        e1["myapp.user"] = "alice"
+        e1["HTTP_X_INJECTED"] = "1"
+    r2 = mk_req(headers=[(NAMES[i2], v2)])
+    r2.method, r2.uri, r2.path, r2.query, r2.fragment, r2.version = "GET", "/two", "/two", "", "", (1, 0)
+    e2 = env_for(r2, cfg)
+    if e2 is e1:
+        return False
+    name = NAMES[i2]
+    key = {"CONTENT-TYPE": "CONTENT_TYPE", "CONTENT-LENGTH": "CONTENT_LENGTH"}.get(name, "HTTP_" + name.replace("-", "_"))
+    for k in e2:
+        if (k.startswith("HTTP_") or k in ("CONTENT_TYPE", "CONTENT_LENGTH") or k.startswith("myapp.")) and k != key:
+            return False
+    return (e2.get(key) == v2 and e2["REQUEST_METHOD"] == "GET" and e2["PATH_INFO"] == "/two" and e2["QUERY_STRING"] == ""
+            and e2["RAW_URI"] == "/two" and e2["SERVER_PROTOCOL"] == "HTTP/1.0")
+
+
 def header_value(v: str) -> bool:
     """
     pre: len(v) == CASE["n"]
@@ -220,6 +262,9 @@ OBLIGATIONS = [
        timeout={"quick": 900, "thorough": 3000},
        bound="2 (thorough 3) headers with names from {X-A, X-B, Content-Type, Content-Length, Host} incl. repeats, values of "
              "<=1 (thorough 2) arbitrary field-value characters"),
+    Ob("C15.two_requests", "two_requests", timeout=600,
+       bound="two consecutive requests in one worker (same Config object), one header each from 6 names x 4 values, "
+             "application writing to the first environ or not; executed untraced after the solver picked the inputs"),
     Ob("C15.header_value", "header_value", cases={"quick": [{"n": 1}, {"n": 2}], "thorough": [{"n": 1}, {"n": 2}, {"n": 3}]},
        timeout={"quick": 900, "thorough": 3000},
        bound="one header whose value is 1..2 (thorough 3) arbitrary field-value characters, through the real parse_headers"),
